@@ -226,3 +226,75 @@ def s_const_repr(_ctx):
 
 
 SCENARIOS.append(Scenario("C13.export.const_repr", s_const_repr, [(REL, "_get_const_repr")], kind="evaluation"))
+
+
+def s_attribute_param_types(ctx):
+    """_attribute_param_types: every attribute reference of a function body — at any nesting depth (node attribute,
+    inside a graph-valued attribute, inside a list of graphs) — is recorded with the type of the referencing attribute."""
+    import onnx
+    from pyvc.values import SInt
+    I = Interp(ctx)
+    exp = _exp()
+    AP = onnx.AttributeProto
+    name = z3.String("attr_param_name")
+    ctx.assume(z3.Length(name) > 0)
+    tp = ctx.int("attr_type")
+    ctx.assume(z3.And(tp >= 1, tp <= 14, tp != AP.GRAPH, tp != AP.GRAPHS))
+    where = ["top-level node", "inside a GRAPH attribute", "inside a GRAPHS attribute", "two levels deep"][ctx.choose(4, "location of the reference")]
+    ctx.cover("attr_param_types." + where)
+
+    def ref_attr():
+        a = SObj(onnx.AttributeProto, "refattr")
+        a.fields.update(ref_attr_name=SStr(name), type=SInt(tp), name="alpha")
+        return a
+
+    def node_with(attrs):
+        n = SObj(onnx.NodeProto, "node")
+        n.fields.update(attribute=list(attrs), op_type="Op")
+        return n
+
+    def graph_with(nodes):
+        g = SObj(onnx.GraphProto, "graph")
+        g.fields.update(node=list(nodes))
+        return g
+
+    def graph_attr(g):
+        a = SObj(onnx.AttributeProto, "graphattr")
+        a.fields.update(ref_attr_name="", type=AP.GRAPH, g=g, graphs=[], name="body")
+        return a
+
+    def graphs_attr(gs):
+        a = SObj(onnx.AttributeProto, "graphsattr")
+        a.fields.update(ref_attr_name="", type=AP.GRAPHS, g=None, graphs=list(gs), name="bodies")
+        return a
+    plain = SObj(onnx.AttributeProto, "plain")
+    plain.fields.update(ref_attr_name="", type=AP.INT, name="axis")
+    inner = node_with([plain, ref_attr()])
+    if where == "top-level node":
+        nodes = [inner]
+    elif where == "inside a GRAPH attribute":
+        nodes = [node_with([graph_attr(graph_with([inner]))])]
+    elif where == "inside a GRAPHS attribute":
+        nodes = [node_with([graphs_attr([graph_with([]), graph_with([inner])])])]
+    else:
+        nodes = [node_with([graph_attr(graph_with([node_with([graphs_attr([graph_with([inner])])])]))])]
+    fp = SObj(onnx.FunctionProto, "funproto")
+    fp.fields.update(node=nodes)
+    I.models[exp._is_attribute_ref] = lambda interp, a: wrap_(z3.Length(term(a.fields["ref_attr_name"])) > 0) if not isinstance(a.fields["ref_attr_name"], str) else bool(a.fields["ref_attr_name"])
+    r = I.run_closure(I.closure_of(exp._attribute_param_types), [fp], {})
+    ok = isinstance(r, dict) and len(r) == 1
+    ctx.check("C13.export.attribute_param_types.reference_found_at_any_depth", ok,
+              "C13: 'model-local functions with attribute references' — an attribute parameter used only inside an If/Loop body keeps its type")
+    if ok:
+        k, v = list(r.items())[0]
+        ctx.check("C13.export.attribute_param_types.recorded_with_the_type_of_the_reference", z3.And(term(k) == name, term(v) == tp), "C13")
+
+
+def wrap_(t):
+    from pyvc.values import wrap
+    return wrap(t)
+
+
+SCENARIOS.append(Scenario("C13.export.attribute_param_types", s_attribute_param_types,
+                          [(REL, "_attribute_param_types"), (REL, "_attribute_param_types.visit_node"), (REL, "_attribute_param_types.visit_graph")],
+                          kind="bounded", bound="one attribute reference at nesting depth 0, 1 (GRAPH), 1 (GRAPHS) or 2; name and type symbolic"))
